@@ -104,33 +104,61 @@ Definition positions_in_sourceb (src : bstr) (n : node) : bool :=
   forallb (fun p => p <=? N.of_nat (length src)) (poss n).
 
 (* ------------------------------------------------------------------ *)
-(* The chain of entry-template nodes whose walk has begun and not finished when
-   the error [e] is raised and the machine stops in state [fin]:
-   [walk_fails cf fuel n e fin] -- walking n at call depth 0 (in the entry template)
-   with this much fuel ends in that error and that state;
-   [failing_path cf fuel n e fin path] -- path = n :: ... :: innermost, each one a node walked by
-   the walk of the one before it (an immediate sub-node, or for a plural case the
-   message node synthesised for the chosen case), all of them failing with the same
-   error in the same final state, and the last one failing in its own code: no node
-   walked by it (in the entry template) fails that way. *)
+(* Which node of the entry template was executing when the error was raised.
+
+   [mask w]: the walker w with every failure of a walk in the entry template (call depth 0)
+   turned into an outcome that is not an error.  Running ONE unfolding of the walker on n with
+   the masked walker for its sub-walks ([walk_body cf (mask w) n]) therefore ends in [Err e]
+   exactly when the error is raised by n's own code -- or inside a template n calls (sub-walks
+   at depth > 0 are not masked) -- and not inside a sub-walk of n in the entry template:
+   [fails_in_own_code].
+
+   [failing_path cf e fin fuel n path]: path = n :: ... :: innermost is the chain of entry-template
+   nodes whose walk has begun and not finished when the error e is raised and the machine stops in
+   state fin: each of them fails with that error in that state ([walk_fails]), each lies within
+   the one before it ([within]: a sub-node, or the message node synthesised for a plural case),
+   and the innermost fails in its own code. *)
+Definition mask (w : node -> M value) : node -> M value :=
+  fun c st =>
+    if Nat.eqb (depth_ st) 0
+    then match w c st with
+         | (Ok v, s) => (Ok v, s)
+         | (_, s) => (Diverge, s)
+         end
+    else w c st.
+
 Definition walk_fails (cf : cfg) (fuel : nat) (n : node) (e : bstr) (fin : mstate) : Prop :=
   exists st, depth_ st = 0%nat /\ walk cf fuel n st = (Err e, fin).
 
-(* the nodes [walk] may be invoked on while walking n in the entry template *)
-Definition walked_from (n c : node) : Prop :=
-  In c (children n)
-  \/ (exists gc, In gc (children n) /\ In c (children gc) /\
-                 match gc with NIfCond _ _ _ | NSwitchCase _ _ _ | NParamValue _ _ _ | NParamContent _ _ _
-                             | NMsgPlaceholder _ _ _ | NDirective _ _ _ | NAccExpr _ _ _ | NMsgPlural _ _ _ _ _ => True
-                             | _ => False end)
-  \/ (exists mp body, c = NMsg mp 0 [] [] body /\ pos_of n = mp /\ forall p, In p (flat_map poss body) -> In p (poss n)).
+Definition fails_in_own_code (cf : cfg) (fuel : nat) (n : node) (e : bstr) (fin : mstate) : Prop :=
+  exists st, depth_ st = 0%nat /\ walk_body cf (mask (walk cf fuel)) n st = (Err e, fin).
+
+Definition within (c n : node) : Prop := forall p, In p (poss c) -> In p (poss n).
 
 Inductive failing_path (cf : cfg) (e : bstr) (fin : mstate) : nat -> node -> list node -> Prop :=
 | fp_here fuel n :
-    walk_fails cf fuel n e fin ->
-    (forall fuel' c, walked_from n c -> ~ walk_fails cf fuel' c e fin) ->
-    failing_path cf e fin fuel n [n]
-| fp_down fuel fuel' n c path :
-    walk_fails cf fuel n e fin -> walked_from n c -> (fuel' < fuel)%nat ->
-    failing_path cf e fin fuel' c path ->
-    failing_path cf e fin fuel n (n :: path).
+    fails_in_own_code cf fuel n e fin ->
+    failing_path cf e fin (S fuel) n [n]
+| fp_down fuel n c path :
+    walk_fails cf (S fuel) n e fin -> within c n ->
+    failing_path cf e fin fuel c path ->
+    failing_path cf e fin (S fuel) n (n :: path).
+
+(* errors that the model can raise but that a compiled tree and a well-formed scope stack never do:
+   a set on an empty scope stack, a lost capture buffer, a node of the wrong kind in a param / case list *)
+Definition internal_error (n : node) (e : bstr) : Prop :=
+  match n with
+  | NLetContent _ _ _ | NFor _ _ _ _ _ => e = e_index \/ e = e_impossible
+  | NCall _ _ _ _ _ | NLog _ _ => e = e_impossible \/ e = e_unknown
+  | _ => False
+  end.
+
+(* where the position register stands when node n fails in its own code:
+   at n -- except that evalPrint walks its argument without restoring s.node (the position is then
+   that of a node of the argument: the same tag), and that a message leaves it at the part rendered last *)
+Definition reported_at (n : node) (e : bstr) (p : N) : Prop :=
+  match n with
+  | NPrint _ arg _ => In p (poss arg)
+  | NMsg _ _ _ _ _ => In p (poss n)
+  | _ => p = pos_of n \/ internal_error n e
+  end.
